@@ -120,6 +120,15 @@ theorem monitor_silent_on_model (c : Cfg) (hv : ValidCfg c) (ops : List Op) :
     monRun c {} (init c) ops = [] :=
   monRun_silent (s := init c) hv (inv_init c) (mi_init c) ops
 
+/-- Every allocation and every release is recorded exactly once: the record ledger of the monitor (each
+    observed new allocation owes one assignment record, each observed release one release record; a record
+    nobody owes — a duplicate or stray one — and a debt left when the log has been flushed are failures)
+    never emits a verdict along any history of the model.  The ledger matches records to calls regardless
+    of how late the logger writes them, so the same holds when records only become visible at a later flush. -/
+theorem ledger_silent_on_model (c : Cfg) (hv : ValidCfg c) (ops : List Op) :
+    ledgerRun c {} (init c) ops = [] :=
+  ledgerRun_silent (s := init c) hv (inv_init c) (li_init c) ops
+
 /-! non-vacuity -/
 example : ValidCfg (mkCfg 0 0 0 true true) := by unfold ValidCfg mkCfg; decide
 example : ValidCfg (mkCfg 1000 10000 12500 true false) := by unfold ValidCfg mkCfg; decide
